@@ -297,6 +297,20 @@ def gen_cases(ctx, g):
             a = (a[0], 0, 1, a[3])
             b = (b[0] if rng.random() < 0.3 else a[0], 0, b[2], b[3])
         cases.append(g.case(mkparams(*a, **g.rest()), mkparams(*b, **g.rest()), honest=(rng.random() < 0.7), kind="random"))
+    # connection handles: chosen independently on the two sides (0 is a legal handle; the two stacks number their
+    # connections independently), distinct per stack within a sequence
+    pool = [0, 1, 2, 42, 0x40, 0xEFF]
+    for c in cases:
+        used = [set(), set()]
+        for st in steps_of(c):
+            if st.get("mode", "new") == "new" and not st.get("handles"):
+                hs = []
+                for side in (0, 1):
+                    free = [h for h in pool if h not in used[side]]
+                    h = 0 if (0 in free and rng.random() < 0.4) else rng.choice(free)
+                    used[side].add(h)
+                    hs.append(h)
+                st["handles"] = hs
     return cases
 
 
@@ -336,14 +350,15 @@ def runs_of(r):
 
 def step_request(st):
     return {"mode": st.get("mode", "new"), "i": st["i"], "r": st["r"], "ui": st["ui"], "rmax": st.get("rmax", False),
-            "ediv": st.get("ediv"), "bv": st.get("bv", []), "concurrent": bool(st.get("concurrent"))}
+            "ediv": st.get("ediv"), "bv": st.get("bv", []), "concurrent": bool(st.get("concurrent")),
+            "handles": st.get("handles")}
 
 
 COQ_MODE = {"same": "SameConn", "reconnect": "Reconnect", "new": "NewConn"}
 
 
 def public_case(c):
-    d = {k: c[k] for k in ("i", "r", "ui", "expect", "expect_class", "spec_method", "kind", "mode", "ediv", "bv", "concurrent") if k in c}
+    d = {k: c[k] for k in ("i", "r", "ui", "expect", "expect_class", "spec_method", "kind", "mode", "ediv", "bv", "concurrent", "handles") if k in c}
     if c.get("rmax"):
         d["rmax"] = True
     if c.get("more"):
